@@ -107,6 +107,82 @@ def script_bool(kind, rng, nv, length, flavour):
     return ops
 
 
+def script_sparse(rng, nv, flavour):
+    """Only some variables get a node (VAR/NVAR on a subset with gaps; functions are combined from those
+    only - no TT/TTI, which touch every variable), so that the library's own preparation loops have to
+    CREATE variable nodes while they already own edges: substitution (substitute_prepare creates the
+    variable node of every unsubstituted level above the last substituted one), quantification / restrict /
+    pick_cube_dd_set (variable-set and literal cubes over variables without a node).
+    flavour: subst | cube"""
+    ops = [f"VARS {nv}"]
+    live = []
+
+    def fresh():
+        d = len(live)
+        live.append(d)
+        return d
+
+    def pick():
+        return rng.choice(live)
+
+    # a variable subset with at least one gap below its largest member
+    while True:
+        S = sorted(rng.sample(range(nv), rng.randrange(2, 4)))
+        gaps = [v for v in range(S[-1]) if v not in S]
+        if gaps:
+            break
+    var_slot = {}
+    for v in S:
+        d = fresh()
+        var_slot[v] = d
+        ops.append(f"{rng.choice(['VAR', 'VAR', 'NVAR'])} h{d} {v}")
+    for _ in range(rng.randrange(2, 5)):
+        q = rng.random()
+        if q < 0.7:
+            a, b = pick(), pick()
+            ops.append(f"{rng.choice(ddgen.BIN_OPS)} h{fresh()} h{a} h{b}")
+        elif q < 0.9:
+            a, b, c = pick(), pick(), pick()
+            ops.append(f"ITE h{fresh()} h{a} h{b} h{c}")
+        else:
+            a = pick()
+            ops.append(f"NOT h{fresh()} h{a}")
+    if flavour == "subst":
+        nsub = 0
+        for _ in range(rng.randrange(1, 3)):
+            # pairs on non-adjacent variables: the smallest and the largest member of S are always
+            # substituted, so that every gap level lies between two substituted levels
+            vs = sorted(set([S[0], S[-1]] + rng.sample(S, rng.randrange(0, len(S)))))
+            ops.append(f"MKSUBST {nsub} " + " ".join(f"{v}=h{pick()}" for v in vs))
+            nsub += 1
+            for _ in range(rng.randrange(1, 3)):
+                a = pick()
+                ops.append(f"SUBST h{fresh()} h{a} {nsub - 1}")
+    else:
+        for _ in range(rng.randrange(2, 5)):
+            q = rng.random()
+            # masks over ALL variables: the cubes need nodes of variables that have none yet
+            mask = rng.randrange(1, 1 << nv) | (1 << rng.choice(gaps))
+            a = pick()
+            if q < 0.25:
+                ops.append(f"{rng.choice(['EXISTS', 'FORALL', 'UNIQUE'])} h{fresh()} h{a} {mask}")
+            elif q < 0.45:
+                b = pick()
+                ops.append(f"{rng.choice(['AEX', 'AFA', 'AUQ'])} {rng.choice(ddgen.BIN_OPS)} h{fresh()} h{a} h{b} {mask}")
+            elif q < 0.65:
+                neg = rng.randrange(1 << nv) & ~mask
+                ops.append(f"RESTRICT h{fresh()} h{a} {mask} {neg}")
+            elif q < 0.85:
+                neg = rng.randrange(1 << nv) & ~mask
+                pos, neg = (mask, neg) if rng.random() < 0.5 else (neg, mask)
+                ops.append(f"PICKSET h{fresh()} h{a} {pos} {neg}")
+            else:
+                cm = rng.randrange(1 << nv)
+                ops.append(f"PICK h{a} {cm}")
+                ops.append(f"PICKDD h{fresh()} h{a} {cm}")
+    return ops
+
+
 def script_zbdd(rng, nv, length):
     ops = [f"VARS {nv}"]
     live = []
@@ -209,6 +285,11 @@ def gen_scripts(ctx):
                 for nv in nvs:
                     for threads in (1, 2, 8) if flavour == "apply" and length == 6 else (1, rng.choice([2, 8])):
                         res.append((f"s{sid}", kind, threads, nv, script_bool(kind, rng, nv, length, flavour))); sid += 1
+            # sparse-variable scripts (see script_sparse)
+            for flavour in ("subst", "subst", "cube"):
+                for threads in (1, rng.choice([2, 8])):
+                    nv = rng.randrange(4, 7)
+                    res.append((f"s{sid}", kind, threads, nv, script_sparse(rng, nv, flavour))); sid += 1
         # extra single-thread BDD scripts: these are the ones the bounded model predicts op by op
         for _ in range(6 if thorough else 3):
             res.append((f"s{sid}", "bdd", 1, 4, script_bool("bdd", rng, 4, rng.randrange(5, 9), "apply"))); sid += 1
@@ -345,7 +426,7 @@ def run(ctx):
     ctx.stats["cases"] = len(cases)
     vf.write_evidence(
         ctx, "proof",
-        rule="scripts per kind (bdd, bcdd: apply/not/ite, quantification + apply-and-quantify + restrict + substitution, pick_cube_dd / pick_cube_dd_set, truth-table construction; zbdd: set operations, make_node, Boolean operators, ite, pick; mtbdd: constants, value tables, arithmetic, ite, restrict) with 1, 2 and 8 threads; each script measured on a large manager (peak stored inner nodes / terminals = need) and then run at every inner-node capacity 0..need+2 (zbdd: from the number of variables; mtbdd additionally every terminal capacity 0..need+1), each run = script; DROPALL; GC; [capacity probe; GC;] script again; DROPALL; GC with a snapshot after every op. non-trivial = case with >= 3 ops",
+        rule="scripts per kind (bdd, bcdd: apply/not/ite, sparse-variable scripts (only some variables have a node: substitution with gaps, variable-set / literal cubes over variables without a node), quantification + apply-and-quantify + restrict + substitution, pick_cube_dd / pick_cube_dd_set, truth-table construction; zbdd: set operations, make_node, Boolean operators, ite, pick; mtbdd: constants, value tables, arithmetic, ite, restrict) with 1, 2 and 8 threads; each script measured on a large manager (peak stored inner nodes / terminals = need) and then run at every inner-node capacity 0..need+2 (zbdd: from the number of variables; mtbdd additionally every terminal capacity 0..need+1), each run = script; DROPALL; GC; [capacity probe; GC;] script again; DROPALL; GC with a snapshot after every op. non-trivial = case with >= 3 ops",
         checker_cmd=f"make -C coq Props/{ctx.pid}.vo (coqc 8.16.1) + Print Assumptions audit; ./check {ctx.pid}",
         extra_cov={"scripts": len(scripts), "sweep_cases": len(cases), "cases_ok_generic_driver": ok1, "cases_bad_generic_driver": len(bad1),
                    "cases_ok_c14_driver": ok2, "cases_bad_c14_driver": len(bad2),
